@@ -493,6 +493,9 @@ def r13_poison_dropped(run, F):
             in_place = sc.get("k") == "Field"
             for a in m["arms"]:
                 errs = [x for alt in hirq.pat_alts(a["pat"]) for x in walk(alt) if x.get("k") == "TupleStruct" and str(x.get("res", "")).endswith("::Err")]
+                # `Err(Poison::Poisoned)` names the marker of an error that is stored elsewhere: there is nothing to lose
+                errs = [e for e in errs if not all(str(hirq.strip_ref(q).get("res") or hirq.strip_ref(q).get("ctor_of") or "").endswith("Poison::Poisoned")
+                                                   for q in e.get("pats", [])) or not e.get("pats")]
                 if not errs:
                     continue
                 binds = [(nm, lid) for e in errs for nm, lid, _ in hirq.pat_bindings(e)]
